@@ -27,6 +27,56 @@ NOT_DECIDED = ("the *iff* for row-level triggers placed anywhere in arbitrary fo
 ASSUMPTIONS = ["call resolution by name; the independent oracles in this file restate the property text"]
 
 
+def duplicate_id_headers(ctx, r2, w2j, rid):
+    # the duplicate form_id / id_string headers warning depends on the HEADERS alone (a blank id_string cell under an
+    # id_string header is still a duplicate header), form_id wins whatever the column order, and the id_string cell is
+    # dropped: the statements between reading the settings sheet and grouping its headers are evaluated on every
+    # header order x cell emptiness combination
+    sblock = None
+    for x in walk_own(w2j.node):
+        if isinstance(x, ast.If):
+            idx_a = next((i for i, st_ in enumerate(x.body) if isinstance(st_, ast.Assign) and any(isinstance(t, ast.Name) and t.id == "settings_sheet" for t in st_.targets)), None)
+            idx_b = next((i for i, st_ in enumerate(x.body) if any(isinstance(c_, ast.Call) and call_name(c_) == "dealias_and_group_headers" for c_ in ast.walk(st_))), None)
+            if idx_a is not None and idx_b is not None and idx_a < idx_b:
+                sblock = [st_ for st_ in x.body[idx_a + 1: idx_b] if not isinstance(st_, ast.Import | ast.ImportFrom)]
+                break
+    if sblock is None:
+        r2.fail("duplicate id headers", "the settings-sheet block is found", w2j.loc())
+    else:
+        import itertools as _it4
+        for order, (fid, sid) in _it4.product((("form_id", "id_string"), ("id_string", "form_id")), _it4.product(("F", None), ("S", None))):
+            hdr = {h: None for h in order}
+            rowd = {h: v for h, v in zip(("form_id", "id_string"), (fid, sid)) if v is not None}
+            rowd = {h: rowd[h] for h in order if h in rowd}
+            rowd["version"] = "1"
+            itd = ctx.interp(rid)
+            itd.reset([])
+            wlist = []
+            env = {"settings_sheet_headers": [hdr], "settings_sheet": [rowd], "warnings": wlist}
+            try:
+                for st_ in sblock:
+                    itd.exec(st_, env, w2j.module)
+                row_after = env["settings_sheet"][0]
+                okd = len(wlist) == 1 and "id_string" not in row_after and row_after.get("form_id") == fid and "id_string" not in env["settings_sheet_headers"][0]
+                why = f"{len(wlist)} warnings, row {row_after}, headers {list(env['settings_sheet_headers'][0])}"
+            except Raised as e:
+                okd, why = False, f"raises {e.exc_name}{e.exc_args}"
+            r2.check(okd, f"duplicate id headers[columns {order[0]},{order[1]}; form_id cell {'filled' if fid else 'blank'}, id_string cell {'filled' if sid else 'blank'}]",
+                     "one warning; the id_string column is dropped, form_id is kept", w2j.loc(sblock[0]) if sblock else w2j.loc(), why_fail=why)
+        for only in ("form_id", "id_string"):
+            itd = ctx.interp(rid)
+            itd.reset([])
+            wlist = []
+            env = {"settings_sheet_headers": [{only: None, "version": None}], "settings_sheet": [{only: "X", "version": "1"}], "warnings": wlist}
+            try:
+                for st_ in sblock:
+                    itd.exec(st_, env, w2j.module)
+                oko = not wlist and env["settings_sheet"][0].get(only) == "X"
+            except Raised as e:
+                oko = False
+            r2.check(oko, f"duplicate id headers[only {only}]", "no warning, nothing dropped", w2j.loc())
+
+
 def run(ctx):
     repo = ctx.repo
     it0 = ctx.consts.interp
@@ -147,53 +197,7 @@ def run(ctx):
             r2.check(got is want, f"no-label warning[{desc}]", f"{'warned' if want else 'not warned'}", w2j.loc(nolabel[0]), why_fail=f"guard evaluates to {got}")
     else:
         r2.fail("no-label warning", "one warning site for unlabeled groups / repeats in the row loop", w2j.loc(loop), why_fail=f"{len(nolabel)} sites")
-    # the duplicate form_id / id_string headers warning depends on the HEADERS alone (a blank id_string cell under an
-    # id_string header is still a duplicate header), form_id wins whatever the column order, and the id_string cell is
-    # dropped: the statements between reading the settings sheet and grouping its headers are evaluated on every
-    # header order x cell emptiness combination
-    sblock = None
-    for x in walk_own(w2j.node):
-        if isinstance(x, ast.If):
-            idx_a = next((i for i, st_ in enumerate(x.body) if isinstance(st_, ast.Assign) and any(isinstance(t, ast.Name) and t.id == "settings_sheet" for t in st_.targets)), None)
-            idx_b = next((i for i, st_ in enumerate(x.body) if any(isinstance(c_, ast.Call) and call_name(c_) == "dealias_and_group_headers" for c_ in ast.walk(st_))), None)
-            if idx_a is not None and idx_b is not None and idx_a < idx_b:
-                sblock = [st_ for st_ in x.body[idx_a + 1: idx_b] if not isinstance(st_, ast.Import | ast.ImportFrom)]
-                break
-    if sblock is None:
-        r2.fail("duplicate id headers", "the settings-sheet block is found", w2j.loc())
-    else:
-        import itertools as _it4
-        for order, (fid, sid) in _it4.product((("form_id", "id_string"), ("id_string", "form_id")), _it4.product(("F", None), ("S", None))):
-            hdr = {h: None for h in order}
-            rowd = {h: v for h, v in zip(("form_id", "id_string"), (fid, sid)) if v is not None}
-            rowd = {h: rowd[h] for h in order if h in rowd}
-            rowd["version"] = "1"
-            itd = ctx.interp("C20.R2")
-            itd.reset([])
-            wlist = []
-            env = {"settings_sheet_headers": [hdr], "settings_sheet": [rowd], "warnings": wlist}
-            try:
-                for st_ in sblock:
-                    itd.exec(st_, env, w2j.module)
-                row_after = env["settings_sheet"][0]
-                okd = len(wlist) == 1 and "id_string" not in row_after and row_after.get("form_id") == fid and "id_string" not in env["settings_sheet_headers"][0]
-                why = f"{len(wlist)} warnings, row {row_after}, headers {list(env['settings_sheet_headers'][0])}"
-            except Raised as e:
-                okd, why = False, f"raises {e.exc_name}{e.exc_args}"
-            r2.check(okd, f"duplicate id headers[columns {order[0]},{order[1]}; form_id cell {'filled' if fid else 'blank'}, id_string cell {'filled' if sid else 'blank'}]",
-                     "one warning; the id_string column is dropped, form_id is kept", w2j.loc(sblock[0]) if sblock else w2j.loc(), why_fail=why)
-        for only in ("form_id", "id_string"):
-            itd = ctx.interp("C20.R2")
-            itd.reset([])
-            wlist = []
-            env = {"settings_sheet_headers": [{only: None, "version": None}], "settings_sheet": [{only: "X", "version": "1"}], "warnings": wlist}
-            try:
-                for st_ in sblock:
-                    itd.exec(st_, env, w2j.module)
-                oko = not wlist and env["settings_sheet"][0].get(only) == "X"
-            except Raised as e:
-                oko = False
-            r2.check(oko, f"duplicate id headers[only {only}]", "no warning, nothing dropped", w2j.loc())
+    duplicate_id_headers(ctx, r2, w2j, "C20.R2")
     rules += [r2, r3]
 
     # ------------------------------------------------------------------ R4
